@@ -492,14 +492,17 @@ class Model(object):
         models.
         """
 
-        subs = self.get_values(formula.get_free_variables())
-        simp = formula.substitute(subs).simplify()
+        substituter = self.environment.substituter
+        simplifier = self.environment.simplifier
+        free_variables = self.environment.fvo.get_free_variables(formula)
+        subs = self.get_values(free_variables)
+        simp = simplifier.simplify(substituter.substitute(formula, subs))
         if simp.is_true():
             return True
         if simp.is_false():
             return False
 
-        free_vars = simp.get_free_variables()
+        free_vars = self.environment.fvo.get_free_variables(simp)
         if  len(free_vars) > 0:
             # Partial model
             return False
@@ -520,7 +523,7 @@ class Model(object):
                 stack += x.args()
 
             subs = self.get_values(div_0)
-            simp = simp.substitute(subs).simplify()
+            simp = simplifier.simplify(substituter.substitute(simp, subs))
             return simp.is_true()
         return False
 
